@@ -3,11 +3,15 @@
 From Coq Require Import List String NArith Bool.
 From FIM Require Import Base.Str Model.Sliver2Kinds Gen.PropMap Model.Sliver2Map Model.Sliver2WF
   Model.Sliver2Deep Model.Sliver2DeepWF Model.Sliver2Graph
-  Proofs.Sliver2Assoc Proofs.Sliver2MapRT Proofs.Sliver2Elem Proofs.Sliver2DeepRT.
+  Proofs.Sliver2Assoc Proofs.Sliver2MapRT Proofs.Sliver2Elem Proofs.Sliver2DeepRT Proofs.Sliver2GraphRT.
 Import ListNotations.
 
 Lemma gen_ok_true : gen_ok = true.
 Proof. reflexivity. Qed.
+
+(* names the offending attribute / keyword when a mapping line is deleted, misspelled or made asymmetric *)
+Lemma no_bad_entries : map bad_entries all_kinds = [[]; []; []; []; []].
+Proof. vm_compute. reflexivity. Qed.
 
 (* every attribute of every sliver class is written and read back by mutually inverse table entries;
    no graph property collides with a child key or the node id; absent properties read as documented *)
@@ -75,6 +79,11 @@ Proof. apply dict_roundtrip_bind. exact all_tables_ok_true. Qed.
 Theorem json_roundtrip t :
   tree_wf t = true -> bind (sliver_to_json t) (sliver_from_json (t_kind t)) = Ok (forget_ids t).
 Proof. apply json_roundtrip_generic. exact all_tables_ok_true. Qed.
+
+Theorem graph_flat_roundtrip k id a :
+  kind_eqb k KComponent = false -> attrs_wf k a = true -> is_normal k a = true ->
+  graph_roundtrip (flat k id a) = Ok (flat k id a).
+Proof. apply graph_flat_roundtrip_generic. exact all_tables_ok_true. Qed.
 
 Theorem set_get k p v d x :
   settable k p = Some x -> single_written k x = true -> value_ok k p v = true -> readable k d = true ->
@@ -229,6 +238,13 @@ Proof.
   split; [vm_compute; reflexivity|]. split; [vm_compute; reflexivity|].
   vm_compute. intro H. inversion H.
 Qed.
+
+Lemma graph_flat_example :
+  attrs_wf KService (aset "gateway" gw_none w_service) = true /\
+  is_normal KService (aset "gateway" gw_none w_service) = true /\
+  graph_roundtrip (flat KService (S"s1") (aset "gateway" gw_none w_service))
+  = Ok (flat KService (S"s1") (aset "gateway" gw_none w_service)).
+Proof. split; [vm_compute; reflexivity|]. split; vm_compute; reflexivity. Qed.
 
 (* non-vacuity of the round-trip hypotheses: the same deep tree through dictionary and JSON *)
 Lemma deep_example :
